@@ -1207,11 +1207,15 @@ where
         if safe.active_blob.is_none() {
             Err(Error::active_blob_doesnt_exist().into())
         } else {
-            // always true
+            // The blob is synced while it is still the active one: if the sync fails (or this future is dropped
+            // while waiting for it) the blob must not be lost together with the local variable holding it
+            if let Some(ablob) = safe.active_blob.as_ref() {
+                ablob.read().await.fsyncdata().await?;
+            }
+            let blobs = safe.blobs.clone();
+            let mut blobs = blobs.write().await;
             if let Some(ablob) = safe.active_blob.take() {
-                let ablob = (*ablob).into_inner();
-                ablob.fsyncdata().await?;
-                safe.blobs.write().await.push(ablob).await;
+                blobs.push((*ablob).into_inner()).await;
             }
             Ok(())
         }
